@@ -13,11 +13,11 @@ import (
 )
 
 func init() {
-	register(&Rule{ID: "R-PANICDOMAIN", Min: 7, Run: rulePanicDomain,
+	register(&Rule{ID: "R-PANICDOMAIN", Min: 5, Run: rulePanicDomain,
 		Doc: "the API entry Exec and every go statement whose goroutine can synchronously reach a user-supplied callback (storage querier/series set/series/iterator, remote query, remote engine) start with a deferred function that calls recover() and reports; reachability uses the repo's call graph with the wrapping fact below"})
 	register(&Rule{ID: "R-WRAP", Min: 3, Run: ruleWrap,
 		Doc: "every operator whose own Next code touches storage (and every operator that carries one in a field) is constructed only as the direct argument of exchange.NewConcurrent or of such a carrier: batch-phase storage callbacks therefore run on pull goroutines only"})
-	register(&Rule{ID: "R-RECOVERTOTAL", Min: 4, Run: ruleRecoverTotal,
+	register(&Rule{ID: "R-RECOVERTOTAL", Min: 3, Run: ruleRecoverTotal,
 		Doc: "in every function that calls recover(), every path taken with a non-nil recovered value performs a report (channel send or store through a pointer/captured variable) before the function exits: no panic value is swallowed"})
 
 	mutant(Mutant{Rule: "R-PANICDOMAIN", Name: "pull-without-recover", File: "execution/exchange/concurrent.go",
